@@ -1232,6 +1232,17 @@ theorem sdk_cancel_statement_order :
   ⟨rfl, rfl, rfl, rfl, rfl, cancelRun_eq, fun s pid who => by simp only [step, cancelRun_eq],
    fun _ _ _ hp => deleteProposalRun_eq hp⟩
 
+/-- **the statements of `ActivateVotingPeriod`, as written in the source now** (regenerated list, interpreted by the model —
+`AddDeposit`'s activation step runs `activateRun`): the start is the block time, the period is the default of the kind
+replaced by the custom period of the message type, the end is START + period, the proposal is stored with start, end and
+status, its inactive-queue entry is removed and its active-queue entry written under the stored end — and this run is the
+one-piece `activate` of the history theorems, in every state -/
+theorem activate_statement_order :
+    activateSteps = ["sdkCtx", "startTime=blockTime", "setVotingStart", "var", "getParams", "periodByExpedited", "customPeriod",
+      "endTime=start+period", "setVotingEnd", "setStatusVoting", "setProposal", "removeInactive", "setActive:votingEnd"] ∧
+    ∀ (s : State) (p : Proposal), activateRun s p = activate s p :=
+  ⟨rfl, activateRun_eq⟩
+
 /-- **`RefundAndDeleteDeposits` and `DeleteAndBurnDeposits` of that SDK version**: the callback of the refund walk sends the
 deposit to its depositor and removes the record; the burn walk adds the amount to `coinsToBurn` and removes the record, one
 `BurnCoins` of the sum follows the walk.  Interpreted (`refundRun`, `burnRun`), they are the `refundDeposits` /
